@@ -143,7 +143,14 @@ def index(ai: int, bi: int, deepA: bool, deepB: bool, overlap: bool, idA: bool, 
     # re-indexing the same results on top of the index changes nothing
     # (idempotence of one build step: the SAME results indexed again on top of the index they produced)
     again = plain(g.genIndex(last, old_index_data=idx))
-    return again == p
+    if again != p:
+        return False
+    # a later build that starts WITHOUT an existing index knows nothing of earlier builds (same or another generator object)
+    for gen in (g, JsonCodeGen()):
+        alone = plain(gen.genIndex({'B': results['B']}))
+        if not _check_index(alone, {'B': results['B']}, {'B': oids['B']}):
+            return False
+    return True
 
 
 class RecWriter(object):
